@@ -7,7 +7,9 @@ integer power, linear transform; depth <= 3) and evaluated on generated sample m
 
 Oracles (DESIGN.md section 5, C15).  Every oracle is evaluated on each *leaf* kernel object and on the *root* of
 each composite; composite nodes additionally get the exact algebra identities, so a failure is attributed to the
-class that causes it (mechanism = "<Class>:<relation>").
+class that causes it: mechanism = "<Class>:<relation>", or "<implementation site>[<configuration class>]:<relation>"
+for relations that a configuration class can affect (see leaf_name), e.g. "DiffAdditiveMixin[order>=4]:theta-gradient".
+A root oracle is skipped (tagged) when one of the tree's leaves already failed that relation.
  symmetry       k(X) == k(X)^T                                                     (1e-12 of max|diag|)
  psd            lambda_min(k(X)) >= -1e-10 * n * max|diag|
  transpose      k(X, Y) == k(Y, X)^T                                               (1e-12)
@@ -32,18 +34,18 @@ import os
 
 import numpy as np
 
-from vlib.oracles import relerr, rng_for
+from vlib.oracles import rng_for
 
 PROPERTY = "C15"
 PROP_NO = 15
-RULE = ("cases = batches of kernels: (a) every leaf class x random hyper-parameters / bounds (default, custom, "
+RULE = ("one kernel per case: (a) every leaf class x random hyper-parameters / bounds (default, custom, "
         "'fixed') / isotropic-anisotropic / order / index sets, (b) random compositions (sum, product, integer power, "
         "DiffTransform, scalar operands through the operator overloads) of depth <= 3, (c) DFTKernel objects in "
         "SEP/NPOL/POL x nspin 1/2 over such kernels; each kernel is evaluated on generated X (n in {1,2,30,100}) and "
         "Y with coincident, near-duplicate and far-apart rows. A kernel is non-trivial when at least one gradient "
         "oracle (theta or input) was conclusive with a non-zero analytic gradient, or - for classes that declare no "
         "gradient - when its value oracles ran on n >= 2; distinct = distinct kernel specification digest")
-MIN_NONTRIVIAL = {"quick": 120, "thorough": 2000}
+MIN_NONTRIVIAL = {"quick": 80, "thorough": 1500}
 ASSUMPTIONS = [
     "hyper-parameters are drawn inside the default sklearn bounds (1e-5, 1e5) (length scales 0.1..10 and, rarely, "
     "1e-3 / 1e3; amplitudes 1e-2..10); the density-noise kernels are only evaluated on their domain (positive "
@@ -55,9 +57,19 @@ ASSUMPTIONS = [
     "SingleDot, ADKernel, SpinSymKernel define no k_and_deriv; k(X) != k(X, X) for white/noise terms by sklearn "
     "convention",
     "finite-difference oracles: 5-point stencil at step h and h/2, h = smallest candidate step whose a-priori rounding "
-    "bound (4 eps |k| / h) is below tol/100 of the derivative scale; a component is skipped when the two estimates "
-    "differ by more than tol/10; scale = max entry of the analytic / numerical "
-    "gradient component over the whole matrix",
+    "bound (16 eps |k| / h) is below tol/300 (else tol/30) of the derivative scale; a component is skipped (not failed) "
+    "when the two estimates differ by more than tol/30, when a finer candidate step disagrees by more than its own "
+    "rounding bound, or when no step qualifies; scale = max entry of the analytic / numerical gradient component "
+    "over the whole matrix; tolerance 1e-6 (measured floor 3e-8 over 2 seeds of the thorough tier)",
+    "exact relations use 1e-12 of the kernel scale (measured floor 1e-14); for DiffAddLLRBF / SubsetAddLLRBF standing "
+    "alone the scale is max(kernel scale, sum_n scale_n p1^n) because their Newton-Girard evaluation cancels terms of "
+    "that size when the per-column factor exceeds 1 (observed value noise up to 1e-4 of the kernel scale for "
+    "order > number of columns and small length scales; not counted as a violation, reported as an observation); "
+    "inside compositions and DFTKernel objects AddLLRBF leaves are restricted to the well-conditioned range "
+    "(order <= columns, length scale >= 1.5, no far-apart rows); DiffAntisymRBF uses scale >= 4 (four cancelling "
+    "terms of size <= 1)",
+    "far-apart rows (30x / 1000x the box) are always present for bounded kernels, with probability 0.3 for the "
+    "polynomial / linear ones (their values grow with |x|, relative oracles then only see the far rows)",
     "k_and_deriv(X) (Y omitted) is the derivative with the second argument held fixed, as documented in "
     "DiffRBF.k_and_deriv",
     "DFTKernel: POL mode with nspin == 1 returns the partial derivative with respect to the alpha slot (equal to the "
@@ -649,6 +661,7 @@ def leaf_name(sp):
         if o == 0:
             q["value-shape-or-nonfinite"] = impl + "[order=0]"
             q["call-raises"] = impl + "[order=0]:value-shape-or-nonfinite"  # SpinSym*: the scalar cannot be block-summed
+            q["theta-setter-raises"] = impl + "[order=0]"  # one-element scale vector becomes a scalar in the setter
         if cls in _ADDITIVE_V2 and sp["hpstate"] == ["fixed", "free"]:
             q["call(eval_gradient)-raises"] = "DiffAdditiveMixin[length_scale-fixed,scale-free]"
     if cls in ("PartialRBF", "PartialARBF"):
@@ -665,7 +678,8 @@ _COMPOSITE = ("DiffSum", "DiffProduct", "DiffExponentiation", "DiffTransform")
 def _on(rel, name):
     """Oracle name: relation x kernel family (the class itself is carried by the mechanism string)."""
     if FINE_NAMES:
-        return "%s[%s]" % (rel, name)
+        q = sorted(set(v.split(":")[0] for v in getattr(name, "q", {}).values()))
+        return "%s[%s%s]" % (rel, name, ("~" + ",".join(q)) if q else "")
     base = name.split("[")[0]
     if base.startswith("DFTKernel"):
         return "%s[%s]" % (rel, name)
@@ -917,7 +931,12 @@ def _ll_budget(lf, X, Y):
     of terms of size p1^n (p1 = sum_dims |k0|), so the value carries an absolute rounding error of about
     eps * sum_n scale_n p1^n (measured: <= 2.5 eps of it on 10^4 random configurations). Relations that are exact
     in exact arithmetic are compared on max(scale of k, this budget); it equals the kernel scale (no effect) unless
-    order exceeds the number of active columns or one column dominates. 0 for every other class."""
+    order exceeds the number of active columns or one column dominates. 0 for every other class
+    (DiffAntisymRBF: see below)."""
+    if lf["cls"] == "DiffAntisymRBF":
+        # k_s = k(x0,y0) - k(x0,y1) - k(x1,y0) + k(x1,y1): four terms of size <= 1 cancel when x0 ~ x1, so entries carry
+        # an absolute rounding error of ~ eps * 4 whatever the (possibly tiny) scale of the result
+        return 4.0
     if "AddLLRBF" not in lf["cls"]:
         return 0.0
     kw = lf["kw"]
@@ -1209,7 +1228,7 @@ def run_kernel(rec, rng, sp, nset):
     rec.tag("nfeat", d)
     rec.tag("sample_features", feats)
     rec.tag("depth", _depth(sp))
-    rec.tag("structure", _brief(sp) if _depth(sp) <= 1 else "depth%d:%s" % (_depth(sp), _node_name(sp)))
+    rec.tag("structure", "leaf" if sp["t"] == "leaf" else "depth%d:%s" % (_depth(sp), _node_name(sp)))
     spec_json = _strip(sp)
     det = {"kernel": spec_json, "n": n, "m": m, "sample_features": feats, "spread": spread}
     try:
@@ -1276,7 +1295,7 @@ def run_kernel(rec, rng, sp, nset):
     elif not leaf_ok["theta"]:
         rec.tag("root_skipped", "theta-gradient: a leaf failed it")
     else:
-        res["theta"] = theta_gradient(rec, k, name, Xf, sp, det, st, budget)
+        res["theta"] = theta_gradient(rec, k, name, Xf, sp, det, st)
     if any(c in NO_XGRAD for c in leafset):
         rec.tag("skipped", "input-gradient:%s define no k_and_deriv" % ",".join(sorted(set(c for c in leafset if c in NO_XGRAD))))
     elif not leaf_ok["x"]:
@@ -1356,7 +1375,7 @@ def _run_dft(case, rec, rng):
             if not any(_qual(lf) for lf in _leaves(sp)):
                 break
         kern = build(sp)
-        rec.tag("dft_kernel_structure", _brief(sp) if _depth(sp) <= 1 else "depth%d" % _depth(sp))
+        rec.tag("dft_kernel_structure", sp["cls"] if sp["t"] == "leaf" else "depth%d:%s" % (_depth(sp), _node_name(sp)))
         det = {"mode": mode, "nspin": nspin, "kernel": _strip(sp), "maps": mdesc, "N0": N0}
         ctol = [1e-5, 1e-3, 1e-8][int(rng.integers(3))]
         nmax = None if rng.random() < 0.6 else int(rng.integers(3, 12))
@@ -1519,13 +1538,13 @@ def gen_cases(tier, seed):
     quick = tier == "quick"
     cases = []
     # (a) leaf sweep: every leaf class
-    nd = 3 if quick else 40
+    nd = 4 if quick else 40
     for ic, cls in enumerate(LEAF_TYPES):
         for r in range(nd):
             cases.append({"id": "leaf-%s-%02d" % (cls, r), "kind": "leaf", "cls": cls, "draw": r, "seed": seed,
                           "idx": 1000 + ic * 100 + r, "_threads": 1, "_timeout": 600, "_weight": 1.0})
     # (b) random compositions
-    nt = 100 if quick else 2000
+    nt = 150 if quick else 2000
     for i in range(nt):
         cases.append({"id": "tree-%04d" % i, "kind": "tree", "seed": seed, "idx": 10000 + i, "_threads": 1,
                       "_timeout": 600, "_weight": 3.0})
@@ -1538,6 +1557,9 @@ def gen_cases(tier, seed):
                 cases.append({"id": "dft-%s-%d-%02d" % (mode, nspin, r), "kind": "dft", "mode": mode, "nspin": nspin, "nk": 1,
                               "seed": seed, "idx": 50000 + i, "_threads": 1, "_timeout": 600, "_weight": 2.0})
                 i += 1
+    # evidence samples are taken from the first cases: lead with one case of each kind
+    lead = ["tree-0000", "dft-SEP-2-00", "leaf-SpinSymARBF-00", "dft-NPOL-1-00"]
+    cases.sort(key=lambda c: lead.index(c["id"]) if c["id"] in lead else len(lead))
     return cases
 
 
